@@ -3,6 +3,7 @@
    Exec/ExecModel.v (+ Exec/Collect.v, Schema/SchemaModel.v, Exec/ExecCache.v),
    the specification Spec/ExecSpec.v. *)
 From PyGql Require Import Spec.ExecSpec Exec.ExecCache Proofs.ExecTopProofs.
+From PyGql Require Import Proofs.DepthTermination Proofs.ExecTermination.
 
 (* Response keys: the keys of every response object are the keys of the
    grouped fields the object type defines, in grouping order; the groups have
@@ -152,6 +153,20 @@ Theorem C04_collect_partial :
     SCollect applies frags vs ss g.
 Proof. exact collect_is_spec_collect_top. Qed.
 Print Assumptions C04_collect_partial.
+
+(* Fuel adequacy of collect_fields (typed and untyped, any fragment-type
+   test): when the document's fragments are acyclic -- some rank decreases
+   along every spread, which is what NoFragmentCycles guarantees -- the
+   traversal of any selection list never runs out of fuel once it has enough,
+   i.e. the code's recursion terminates and "= Ok g" in the theorems above is
+   not vacuous for want of fuel. *)
+Theorem C04_collect_fuel_adequate :
+  forall applies frags vs mc rank,
+    acyclic frags rank ->
+    forall ss, exists f0, forall f g l,
+      f0 <= f -> collect_into applies frags vs mc f ss g l <> OutOfFuel.
+Proof. exact collect_fuel_adequate. Qed.
+Print Assumptions C04_collect_fuel_adequate.
 
 (* The result is one the specification's ExecuteSelectionSet / ExecuteField /
    CompleteValue allow, with the grouping at each level the code's
